@@ -14,8 +14,10 @@ from props import _wrapexact as W
 from props import _osexact as X
 from props import _handles as HD
 from props import _ftp as F
+from props import _multiexact as MX
 
-EXTRA_PROOF_MODULES = ("FsProofs.MemRefines", "FsProofs.WrapRefines", "FsProofs.OsRefines", "FsProofs.HandleLaws")
+EXTRA_PROOF_MODULES = ("FsProofs.MemRefines", "FsProofs.WrapRefines", "FsProofs.OsRefines", "FsProofs.HandleLaws",
+                       "FsProofs.MultiRefines")
 
 QUERY_ON_INVALID_OK = {"exists", "isdir", "isfile"}
 
@@ -129,6 +131,14 @@ def run(rep, tier, seed, deep=False):
         # ClosingSubFS.close, and the decided exception classes, from a directed corpus
         n_wrap = W.judge_wrap_exact(rep, steps, drv, ref_judge=judge)
         rep.extra["wrap_exact_steps"] = n_wrap
+        # MultiFS is tied, *exactly* and at LAYER level, to the functor model FsModel.MultiFs over FsModel.Mem
+        # (`multifs.step`: error class, value, every layer's resulting tree and order): the `multi` steps above
+        # re-executed with layer snapshots, random histories on 2-3 layer stacks (shadowed files/dirs, no write
+        # layer, equal priorities) and a directed corpus; queries on type-consistent stacks and unshadowed
+        # mutators are also judged against Ref.step on the OVERLAY tree (FsProofs/MultiRefines.lean)
+        rep.extra["multi_exact_steps"] = MX.judge_multi_exact(
+            rep, steps, drv, ref_judge=judge, seed_rng=vlib.rng_for(seed, "c01-multifs"),
+            n_hist=12 if quick else 150, n_ops=20 if quick else 40)
         # OSFS / TempFS / SubFS(OSFS) are tied the same way to FsModel.Os (+ Posix, + the GENERATED errno
         # table) and FsModel.OsSub: exact error class, exact tree up to entry order; the POSIX model
         # itself is compared with the kernel, the extracted table with the live one
@@ -153,6 +163,12 @@ def replay(rep, case):
     if case["case"].get("wrapm_kind"):
         try:
             W.replay_case(rep, case["case"], vlib.Driver())
+        finally:
+            H.cleanup_scratch()
+        return 1 if rep.violations else 0
+    if case["case"].get("multifs_stack"):
+        try:
+            MX.replay_case(rep, case["case"], vlib.Driver(), ref_judge=judge)
         finally:
             H.cleanup_scratch()
         return 1 if rep.violations else 0
